@@ -1650,7 +1650,11 @@ def rule_L2(repo: Repo) -> RuleResult:
     if not top:
         raise AnalysisError("L2: squeeze condition not found")
     t = norm(top[0].test)
-    ok_cond = f"{nv} == 1" in t and f"isinstance({values}, ArrayType1D)" in t and " and " in t
+    disj = top[0].test.values if isinstance(top[0].test, ast.BoolOp) and isinstance(top[0].test.op, ast.Or) else [top[0].test]
+    ok_cond = any(isinstance(d, ast.BoolOp) and isinstance(d.op, ast.And)
+                  and f"{nv} == 1" in [norm(v) for v in d.values]
+                  and f"isinstance({values}, ArrayType1D)" in [norm(v) for v in d.values] for d in disj) \
+        and not any(norm(d) in (f"{nv} == 1", f"isinstance({values}, ArrayType1D)") for d in disj)
     (res.ok if ok_cond else res.bad)(f, top[0], f"squeeze when {t[:90]}",
                                      "" if ok_cond else f"the frame must be squeezed when exactly one ({nv} == 1) 1-D array was given "
                                      f"(isinstance({values}, ArrayType1D)); other conditions return the wrong shape")
